@@ -56,7 +56,7 @@ pub fn stark_verify<Layout: LayoutTrait>(
         &points,
         &witness.traces_decommitment,
         &witness.composition_decommitment,
-    );
+    )?;
 
     // Decommit FRI.
     let fri_decommitment = types::Decommitment { values: oods_poly_evals, points };
